@@ -431,6 +431,15 @@ def listInnerSet (h : H) (c : Nat) (i j : Nat) (s : String) : H × Option Err :=
   | some (.atom _) => (h, some .typeError)
   | none => (h, some .indexError)
 
+/-- `prop[i][j] = s`: `Property.__getitem__` is `self._values[key]`, it hands out the stored inner
+    list itself (the "direct access (using brackets)" of the `values` docstring), the assignment
+    writes into it. `c ≥ nV` (a dangling `_values` reference) cannot happen on a store built by the
+    operations; it is answered like a bad handle. -/
+def valueInnerSet (h : H) (p i j : Nat) (s : String) : H × Option Err :=
+  match (h.node p).vals with
+  | none => (h, some .attributeError)
+  | some c => if c ≥ h.nV then (h, some .typeError) else listInnerSet h c i j s
+
 /-- `Section(name)` / `Property(name, values)`: a new detached object. -/
 def newObj (h : H) (k : Kind) (name : String) (attrs : List String) (vals : List Lit) : H × Nat :=
   let id := h.nextId
@@ -458,6 +467,7 @@ inductive Op where
   | listSet (c : Nat) (i : Nat) (v : Lit)
   | listDel (c : Nat) (i : Nat)
   | listInnerSet (c : Nat) (i j : Nat) (s : String)
+  | valueInnerSet (p : Nat) (i j : Nat) (s : String)   -- `p[i][j] = s` (bracket access to the stored value)
   | newObj (k : Kind) (name : String) (attrs : List String) (vals : List Lit)
   | append (p x : Nat)
   | remove (p x : Nat)
@@ -476,6 +486,7 @@ def Op.objs : Op → List Nat
   | .appendValue p _ => [p]
   | .setValueAt p _ _ => [p]
   | .setDtype p _ => [p]
+  | .valueInnerSet p _ _ _ => [p]
   | .append p x => [p, x]
   | .remove p x => [p, x]
   | .rename x _ => [x]
@@ -504,6 +515,7 @@ def Op.props : Op → List Nat
   | .appendValue p _ => [p]
   | .setValueAt p _ _ => [p]
   | .setDtype p _ => [p]
+  | .valueInnerSet p _ _ _ => [p]
   | _ => []
 
 def step (h : H) (op : Op) : H × Res :=
@@ -524,6 +536,7 @@ def step (h : H) (op : Op) : H × Res :=
   | .listSet c i v => optErr (listSet h c i v)
   | .listDel c i => optErr (listDel h c i)
   | .listInnerSet c i j s => optErr (listInnerSet h c i j s)
+  | .valueInnerSet p i j s => optErr (valueInnerSet h p i j s)
   | .newObj k name attrs vals => let (h1, x) := newObj h k name attrs vals; (h1, .ok x)
   | .append p x => optErr (append h p x)
   | .remove p x => optErr (remove h p x)
